@@ -132,7 +132,7 @@ def exec_for(ex, s, st):
         return unroll_range(ex, s, st, vals, elem_of)
     if spec.get("var") and isinstance(s.target, ast.Name) and spec["var"] != s.target.id and elem_of is None:
         raise BindingFailure(f"{ex.fname}: loop #{ordn} iterates over '{s.target.id}', sidecar expects '{spec['var']}'")
-    return cut_loop(ex, s, st, ordn, spec, lo, hi, step, elem_of)
+    return cut_loop(ex, s, st, ordn, spec, lo, hi, step, elem_of, parallel=getattr(it, "parallel", False))
 
 
 def bind_target(ex, s, st, val):
@@ -216,7 +216,11 @@ def assume_invariants(ex, st, spec, idxname, idxval):
             st.env.pop(idxname, None)
 
 
-def cut_loop(ex, s, st, ordn, spec, lo, hi, step, elem_of):
+class it_parallel_marker:
+    flag = False
+
+
+def cut_loop(ex, s, st, ordn, spec, lo, hi, step, elem_of, parallel=False):
     where = ex.where(s)
     # name by which invariants refer to the "next index"
     if elem_of is None:
@@ -263,11 +267,22 @@ def cut_loop(ex, s, st, ordn, spec, lo, hi, step, elem_of):
     h.extra = dict(h.extra)
     h.extra["head"] = (dict(h.env), dict(h.heap), idxname, k)
     h.extra["loopspec"] = spec
+    if parallel:
+        # prange: objects that exist before the loop are shared between iterations; every store into one of
+        # them must hit a slot indexed by the prange variable (ownership obligation `own`)
+        shared = set()
+        for v in st.env.values():
+            if isinstance(v, Arr):
+                shared.add(v.root().oid)
+        h.extra["prange"] = (k, shared)
+        ex.ctx.notes.append(f"prange loop at {where}: {len(shared)} shared arrays, ownership obligations emitted for every store into them")
     if elem_of is not None:
         h.env[idxname] = k
         bind_target(ex, s, h, ex.read(h, elem_of, (k,), s, check=False))
     else:
         h.env[idxname] = k
+    if getattr(it_parallel_marker, "flag", False) or spec.get("parallel"):
+        pass
     if spec.get("head_hints"):
         ex.apply_hints(h, spec["head_hints"], where)
     exits = []
